@@ -29,6 +29,10 @@ pub struct Case14 {
     /// number of elements in the `items` array of every value of the endless tail (1..=3)
     #[serde(default = "two")]
     pub tail_items: u8,
+    /// 0 = endless qualifying values; 1 = endless line feeds; 2 = endless blanks and tabs (the
+    /// rows must then come from the prefix)
+    #[serde(default)]
+    pub tail_kind: u8,
 }
 fn two() -> u8 {
     2
@@ -166,8 +170,8 @@ impl Check for C14Stop {
             4 => (0u32..5, 0u32..3).prop_map(|(n, k)| format!("{{\"n\":{},\"items\":[{{\"n\":{},\"k\":{}}}]}}", n, n, k)),
             1 => prop::sample::select(vec!["1", "\"s\"", "null", "[]", "{}", "{\"n\":-1,\"items\":[]}", "{\"items\":[1,2]}", "{\"n\":\"x\"}"]).prop_map(|s| s.to_string()),
         ];
-        (vec(pv, 0..8), any::<[bool; 4]>(), 0u8..3, 0u8..3, 0u64..=3, 0u64..=5, prop::bool::weighted(0.15), 1u8..=3)
-            .prop_map(|(prefix, b, filter, select, skip, take, file, tail_items)| Case14 { prefix, set: b[0], split: b[1], filter, select, unique: b[2], only_objects: b[3], skip, take, file, tail_items })
+        (vec(pv, 0..12), any::<[bool; 4]>(), 0u8..3, 0u8..3, 0u64..=3, 0u64..=5, prop::bool::weighted(0.15), 0u8..15)
+            .prop_map(|(prefix, b, filter, select, skip, take, file, tail_items)| Case14 { prefix, set: b[0], split: b[1], filter, select, unique: b[2], only_objects: b[3], skip, take, file, tail_items: 1 + tail_items % 3, tail_kind: [0, 0, 0, 1, 2][(tail_items / 3) as usize % 5] })
             .boxed()
     }
     fn check(&self, case: &Case14) -> CaseResult {
@@ -179,7 +183,11 @@ impl Check for C14Stop {
         }
         // every tail value yields at least one surviving row, so skip+take+2 of them are plenty
         let k = case.skip + case.take + 2;
-        let tail = tail_text(case.tail_items);
+        let tail = match case.tail_kind {
+            1 => b"\n\n\n\n\n\n\n\n".to_vec(),
+            2 => b" \t  \t \n ".to_vec(),
+            _ => tail_text(case.tail_items),
+        };
         let mut finite = prefix.clone().into_bytes();
         for i in 0..k {
             finite.extend_from_slice(&expand_tail(&tail, i));
@@ -187,6 +195,13 @@ impl Check for C14Stop {
         let reference = run(&args, &finite);
         if !reference.res.is_ok() {
             return CaseResult::Discard(format!("pipeline fails on the finite input: {}", reference.res.short()));
+        }
+        if case.tail_kind != 0 {
+            // nothing but blanks follows the prefix: jawk can only stop if the prefix alone fills the limit
+            let rows = reference.stdout.iter().filter(|c| **c == b'\n').count() as u64;
+            if case.take == 0 || rows < case.take {
+                return CaseResult::Discard("the prefix does not fill the limit; reading on through endless blanks is legitimate".into());
+            }
         }
         let slack: u64 = if case.file { 64 * 1024 + 64 * 1024 + 16 * 1024 } else { 64 * 1024 };
         let budget = finite.len() as u64 + slack;
@@ -211,6 +226,7 @@ impl Check for C14Stop {
             .class_if(case.file, "fifo_file")
             .class_if(case.take == 0, "take_0")
             .class_if(case.split && case.tail_items == 1, "split_single_element_arrays")
+            .class_if(case.tail_kind != 0, "endless_blanks_after_the_last_row")
             .obs(json!({"bytes_pulled": pulled, "finite_reference_len": finite.len(), "stdout": esc_trunc(&out.stdout, 200)}));
         if over {
             return CaseResult::Fail(format!(
